@@ -390,3 +390,18 @@ Theorem C04_announce_models_agree : forall r c pe closed A T,
   PeerRegistry.inbound_announces r c pe closed = true.
 Proof. exact Compose_p2p.announce_models_agree. Qed.
 Print Assumptions C04_announce_models_agree.
+
+(* PeerType.String and p2p.FromString of the model are not hand-written knowledge: [c04_role_string_fn] and
+   [c04_role_of_string_fn] are regenerated on every run from the two function bodies by the translator of
+   harness/extract (switch on an integer resp. a string; the PeerType constants evaluated with iota).  For all
+   arguments they equal the model's functions, so every theorem above that mentions a role string or a role code
+   is a theorem about the translated source text. *)
+Theorem C04_model_is_translation_of_source_role_string : forall t : Z,
+  c04_role_string_fn t = role_string t.
+Proof. exact Handshake_proofs.role_string_translation. Qed.
+Print Assumptions C04_model_is_translation_of_source_role_string.
+
+Theorem C04_model_is_translation_of_source_role_of_string : forall s : bytes,
+  c04_role_of_string_fn s = role_of_string s.
+Proof. exact Handshake_proofs.role_of_string_translation. Qed.
+Print Assumptions C04_model_is_translation_of_source_role_of_string.
